@@ -299,6 +299,47 @@ def l3_nonneg(chk, ctx, rng, n):
     finally:
         I.use_delj_trick = old
 
+def l3_layout(chk, ctx, rng, n):
+    """'for arbitrary densities': a density handed over as a transposed / Fortran-ordered / strided view (what PhiManip.reorder_pops
+    returns) is advanced exactly like its C-contiguous copy, and one step on it is the documented scheme — 2-5 populations,
+    constant and function-of-time parameters, populations with different parameters"""
+    dadi = ctx['dadi']; I = dadi.Integration
+    fs = [None, I.one_pop, I.two_pops, I.three_pops, I.four_pops, I.five_pops]
+    for it in range(n):
+        d = 2 + it % 4
+        pts = [0, 0, 10, 7, 6, 5][d]
+        xx = dadi.Numerics.default_grid(pts)
+        base = gen.density(rng, [pts] * d)
+        kind = it // 4 % 3
+        if kind == 0:
+            perm = rng.permutation(d)
+            while d > 1 and list(perm) == list(range(d)): perm = rng.permutation(d)
+            view = np.transpose(np.ascontiguousarray(np.transpose(base, np.argsort(perm))), perm); lay = 'transposed'
+        elif kind == 1:
+            view = np.asfortranarray(base); lay = 'fortran'
+        else:
+            big = np.zeros([2 * pts] * d); big[tuple(slice(None, None, 2) for _ in range(d))] = base
+            view = big[tuple(slice(None, None, 2) for _ in range(d))]; lay = 'strided'
+        assert np.array_equal(view, base)
+        nus = [gen.loguniform(rng, 0.2, 5) for _ in range(d)]
+        gam = [float(rng.uniform(-3, 3)) for _ in range(d)]
+        kw = {'nu%d' % (i + 1): nus[i] for i in range(d)}; kw.update({'gamma%d' % (i + 1): gam[i] for i in range(d)})
+        kw['m12'] = float(rng.uniform(0, 2)); kw['m21'] = float(rng.uniform(0, 2))
+        fn = bool(rng.integers(2))
+        if fn: kw['nu1'] = (lambda t, v=nus[0]: v)
+        T = float(rng.uniform(0.005, 0.03))
+        inp = dict(d=d, pts=pts, layout=lay, nus=nus, gammas=gam, m12=kw['m12'], m21=kw['m21'], fn=fn, T=T, phi=base if base.size < 700 else None)
+        chk.l3(('layout', d, lay, fn))
+        key = 'layout:%dD:%s' % (d, lay)
+        try:
+            a = fs[d](view, xx, T, **kw)
+            b = fs[d](np.ascontiguousarray(base), xx, T, **kw)
+        except Exception as e:
+            chk.fail(key + ':raises:' + type(e).__name__, 'integrator raises %r on a %s density' % (e, lay), inp); continue
+        ok, err, scale = close(a, b, rtol=1e-12)
+        if not ok:
+            chk.fail(key + ':differs', 'integrating a %s view differs from integrating its C-contiguous copy by %.3g (scale %.3g)' % (lay, err, scale), inp)
+
 def run(chk, ctx):
     tier = ctx['tier']
     rng = common.Rng(ctx['seed'], 'C02')
@@ -319,6 +360,7 @@ def run(chk, ctx):
     c02_precalc.run(chk, ctx, rng)
     l3_const_fn(chk, ctx, rng, 12 if tier == 'quick' else 60)
     l3_nonneg(chk, ctx, rng, 15 if tier == 'quick' else 100)
+    l3_layout(chk, ctx, rng, 12 if tier == 'quick' else 72)
 
 def replay(chk, ctx, data):
     inp = data.get('input', {})
